@@ -53,3 +53,7 @@ Definition dec_label (l : list Z) : label :=
 
 Definition run_case_z (x : list Z * list (list Z)) : list Z :=
   run_case (dec_cfg (fst x), map dec_label (snd x)).
+
+Definition diff_case_z (x : list Z * list (list Z) * list (list Z)) : Z :=
+  let '(c, ls, os) := x in
+  first_diff (dec_cfg c) (init (dec_cfg c)) (map dec_label ls) os 0.
